@@ -105,12 +105,13 @@ def main(argv=None):
     new, listed = [], []
     for sig, v in sorted(rep.violations.items()):
         (listed if sig in known else new).append((sig, v))
-    os.makedirs(os.path.join(VERIF, "replays"), exist_ok=True)
+    rdir = os.environ.get("VERIF_REPLAY_DIR") or os.path.join(VERIF, "replays")
+    os.makedirs(rdir, exist_ok=True)
     for sig, v in listed:
         print("KNOWN-FINDING: property=%s %s [sig=%s, %d case(s) this run]" % (pid, known[sig], sig, v["count"]))
     rc = 0
     for sig, v in new:
-        path = os.path.join(VERIF, "replays", "%s-%s.json" % (pid, engine.digest(sig)))
+        path = os.path.join(rdir, "%s-%s.json" % (pid, engine.digest(sig)))
         with open(path, "w") as f:
             json.dump({"property": pid, "signature": sig, "what": v["what"], "replay": v["replay"]}, f, indent=1)
         print("VIOLATION property=%s replay=%s" % (pid, path))
@@ -154,7 +155,7 @@ def main(argv=None):
         "violations": len(new),
     }
     os.makedirs(os.path.join(VERIF, "evidence"), exist_ok=True)
-    evp = os.path.join(VERIF, "evidence", pid + ".json")
+    evp = os.path.join(os.environ.get("VERIF_EVIDENCE_DIR") or os.path.join(VERIF, "evidence"), pid + ".json")
     with open(evp, "w") as f:
         json.dump(ev, f, indent=1, sort_keys=True)
     ok = validate_evidence(evp)
